@@ -111,7 +111,7 @@ fn list_files(root: &Path, dir: &Path, out: &mut Vec<(String, Vec<u8>)>) {
 /// `compile <hexname> <outdir: - | hex of path relative to the sandbox> <src>...`
 /// with src = `T<hextext>` (file with that content) | `M` (missing) | `D` (a directory).
 /// Runs in a child process (compile_json prints to stdout, reads OUT_DIR and the cwd).
-fn compile_parent(a: &[&str]) -> String {
+fn compile_parent(a: &[&str], stale: bool) -> String {
     let n = COUNTER.fetch_add(1, Ordering::SeqCst);
     let root = cache_dir().join("gen-tmp").join(format!("{}-{}", std::process::id(), n));
     let _ = std::fs::remove_dir_all(&root);
@@ -128,6 +128,7 @@ fn compile_parent(a: &[&str]) -> String {
         .stdout(Stdio::piped())
         .stderr(Stdio::null())
         .env_remove("OUT_DIR")
+        .env("VERIF_STALE", if stale { "1" } else { "0" })
         .spawn()
         .unwrap();
     child.stdin.take().unwrap().write_all(line.as_bytes()).unwrap();
@@ -190,6 +191,12 @@ fn compile_child(a: &[&str]) -> String {
         }
         paths.push(p);
     }
+    if std::env::var("VERIF_STALE").as_deref() == Ok("1") {
+        // a previous, longer build output at the path the include macro reads
+        let dir = out_dir.clone().map_or_else(|| cwd.clone(), PathBuf::from);
+        let stale = dir.join(format!("{name}.gen.shape.rs"));
+        let _ = std::fs::write(&stale, "// stale output of an earlier build\n".repeat(2000));
+    }
     let r1 = json_shape_build::compile_json(name, &paths);
     let mut files1 = Vec::new();
     list_files(&root, &root, &mut files1);
@@ -243,7 +250,9 @@ pub fn run(a: &[&str]) -> String {
                 Err(_) => "ERR Infer".into(),
             }
         }
-        "compile" => compile_parent(a),
+        "compile" => compile_parent(a, false),
+        // same, but a longer stale file already sits where the include macro reads
+        "compile_stale" => compile_parent(a, true),
         "gen_compile_child" => compile_child(a),
         _ => "ERR BadOp".into(),
     }
